@@ -269,6 +269,38 @@ Section Bytes.
     rewrite Hmb in Hbb. injection Hbb as <-. assert (key_id me = 3) as Hk by lia. rewrite Hk in Hg.
     exists c, data, cm. auto.
   Qed.
+
+  (* the same for every severable member that the manifest references by digest and that is present *)
+  Theorem create_digests_over_embedded_members fuel o out :
+    create env hash_names H uuid5 fs json_loads json_dumps severable_ids steps_prepare steps_processed steps_digest_ext fuel o = Ok out ->
+    exists ents mm mi me ments,
+      to_cbor env fuel (TRef root) (VTagged (VKV ents)) = Ok out
+      /\ find_idx (fun x => key_id x =? 3) em O = Some (mi, me) /\ kv_get ents mi = Some (VKV ments) /\ map_of env (key_ty me) = Some mm
+      /\ forall sid si se ai' dv at_ ei ee ev, In sid severable_ids ->
+           find_idx (fun x => key_id x =? sid) mm O = Some (si, se) -> kv_get ments si = Some (VUnion ai' dv) ->
+           nth_error (alts_of env (key_ty se)) ai' = Some at_ -> is_ref at_ "SuitDigest" = true ->
+           find_idx (fun x => key_id x =? sid) em O = Some (ei, ee) -> kv_get ents ei = Some ev -> sid <> -1 -> sid <> -2 ->
+           exists j alg data h,
+             dv = VUnion j (VSeq [VRaw alg; VRaw (CBytes h)]) /\ hash_of hash_names H alg data = Ok h
+             /\ (NoDup (map fst ents) -> (forall f, payloads_text (to_cbor env f) em ents) ->
+                 exists c dmap cm, dec data = Ok c /\ dict_get dmap (cint sid) = Some c /\ dec (ser (CMap dmap)) = Ok cm /\ out = ser (CTag n cm)).
+  Proof.
+    intros Hc.
+    destruct (create_digests env hash_names H uuid5 fs json_loads json_dumps severable_ids steps_prepare steps_processed steps_digest_ext
+                Hsteps Hnd Hsev fuel o out Hc)
+      as (ents & em' & mm & ai & ae & mi & me & ments & Hout & Hem & Hai & Hmi & Hgm & Hmm & _ & Hsevs).
+    assert (Eem : em' = em).
+    { unfold envelope_map in Hem. fold root in Hem. rewrite Hroot in Hem. unfold map_of in Hem. rewrite Henv in Hem. injection Hem as <-. reflexivity. }
+    subst em'. exists ents, mm, mi, me, ments. split; [exact Hout|]. split; [exact Hmi|]. split; [exact Hgm|]. split; [exact Hmm|].
+    intros sid si se ai' dv at_ ei ee ev Hin Hsi Hgs Hat Hisd Hei Hev Hn1 Hn2.
+    destruct (Hsevs sid si se ai' dv at_ ei ee ev Hin Hsi Hgs Hat Hisd Hei Hev) as (j & alg & data & h & -> & Hdata & Hh).
+    exists j, alg, data, h. split; [reflexivity|]. split; [exact Hh|]. intros Hndents Hpt.
+    destruct (find_idx_nth' _ _ _ _ Hei) as (Hnth & Hid).
+    destruct (envelope_member_embedded env root envn name n em emb Hroot Henv Hids fuel ents out ei ev ee Hout Hndents Hpt
+                (kv_get_in _ _ _ Hev) Hnth ltac:(lia) ltac:(lia)) as (bb & c & dmap & cm & Hbb & Hc' & Hg & Hcm & Heq).
+    rewrite Hdata in Hbb. injection Hbb as <-. assert (key_id ee = sid) as Hk by lia. rewrite Hk in Hg.
+    exists c, dmap, cm. auto.
+  Qed.
 End Bytes.
 
 (* ---- the description side: from_obj keeps the members in description order ---- *)
